@@ -153,7 +153,9 @@ def one_case(rec, tap, rng, cid):
                 return
             rec.event("noise-free twins not converged to zero residual "
                       "(termination-noise tolerance)")
-            t_cp, t_e = 1e-4, 1e-4
+            # (worst seen on the unchanged tree: 1.8e-4 in 2 x 192000
+            #  twins, a 150-point plateau fit; semantic breaks give O(0.1))
+            t_cp, t_e = 1e-3, 1e-3
     if mode == "plat":
         da, db = np.asarray(fa["optimal_fit_delta_array"]), \
             np.asarray(fb["optimal_fit_delta_array"])
